@@ -25,10 +25,28 @@ type SimStorage struct {
 	FailDel int
 	// OnOp is called (with the token) after every mutation, for invariants.
 	OnOp func(op, key string)
+	expiredGets []expiredGet
+	DeletedKeys []string
 	// Delay is extra simulated time per call.
 	DelayPermille int
 	Delays        []time.Duration
 	Ops           int
+}
+
+type expiredGet struct {
+	key string
+	seq uint64
+}
+
+// ExpiredGetBetween reports whether a Get of key path_suffix found an entry
+// with a non-empty value that had expired, within the given event window.
+func (st *SimStorage) ExpiredGetBetween(suffix, path string, from, to uint64) bool {
+	for _, g := range st.expiredGets {
+		if g.key == path+"_"+suffix && g.seq >= from && g.seq <= to {
+			return true
+		}
+	}
+	return false
 }
 
 type simEntry struct {
@@ -63,7 +81,16 @@ func (st *SimStorage) Get(key string) ([]byte, error) {
 	}
 	e, ok := st.data[key]
 	if !ok || (e.exp != 0 && e.exp <= CoarseNow()) {
+		if ok && len(e.val) > 0 {
+			st.expiredGets = append(st.expiredGets, expiredGet{key, st.S.Stamp()})
+		}
+		if st.S.Tracing() {
+			st.S.Logf("%s GET %q -> none", st.Name, key)
+		}
 		return nil, nil
+	}
+	if st.S.Tracing() {
+		st.S.Logf("%s GET %q -> %d bytes", st.Name, key, len(e.val))
 	}
 	if st.Alias {
 		return e.val, nil
@@ -92,6 +119,9 @@ func (st *SimStorage) Set(key string, val []byte, exp time.Duration) error {
 		e.val = append([]byte(nil), val...)
 	}
 	st.data[key] = e
+	if st.S.Tracing() {
+		st.S.Logf("%s SET %q %d bytes ttl=%v", st.Name, key, len(val), exp)
+	}
 	if st.OnOp != nil {
 		st.OnOp("set", key)
 	}
@@ -106,7 +136,13 @@ func (st *SimStorage) Delete(key string) error {
 		st.S.Logf("%s DEL %q -> injected error", st.Name, key)
 		return ErrInjected
 	}
+	if _, ok := st.data[key]; ok {
+		st.DeletedKeys = append(st.DeletedKeys, key)
+	}
 	delete(st.data, key)
+	if st.S.Tracing() {
+		st.S.Logf("%s DEL %q", st.Name, key)
+	}
 	if st.OnOp != nil {
 		st.OnOp("del", key)
 	}
